@@ -4,6 +4,7 @@ package main
 
 import (
 	"fmt"
+	"os"
 	"strings"
 
 	"github.com/jhalter/mobius/hotline"
@@ -420,8 +421,25 @@ func c18LongThread(c *Case) {
 	c.Dist("long-thread/articles-" + fmt.Sprint(min(h.nPost/100*100, 300)))
 }
 
+// c18Extra: families added by other files of this property (wave d).
+var c18Extra []func(x *Ctx)
+
 func init() {
 	props["C18"] = func(x *Ctx) {
+		defer func() {
+			for _, f := range c18Extra {
+				f(x)
+			}
+			if only := os.Getenv("C18_ONLY"); only != "" { // development aid: run a single family
+				var keep []*Family
+				for _, f := range x.families {
+					if f.Name == only {
+						keep = append(keep, f)
+					}
+				}
+				x.families = keep
+			}
+		}()
 		x.rule = "histories of 30-50 requests (new bundle 381 / category 382 incl. re-creating an existing name and creating under a path that names nothing, post and reply 410 incl. replies to the newest, to deleted and to never-existing parents and posts to missing categories / empty paths / bad id fields, delete-article 411 incl. the newest and missing categories, delete-item 380, reload) over at most 5 news paths with nested bundles built from 5 names (arbitrary bytes, 0..255 long); titles and posters 0..255 bytes (arbitrary bytes, YAML look-alikes; 8% of posts give a list record over 512 bytes), bodies up to 2000 bytes and up to 65535 bytes (1 per history in quick, 3 in thorough); after every request the touched lists / articles are fetched through get-article 400, list-articles 371, list-categories 370; at the end everything is swept from the store and from a second store loaded from the file. non-trivial = at least 3 articles stored and 1 article or item deleted; distinct = distinct token string of the history (oracle input)"
 		x.assume = []string{
 			"gopkg.in/yaml.v3 round-trips the tree except strings containing LF that start with LF, TAB, U+2028 or U+2029 and the map key '<<' (excluded from the history generators by this rule; exercised by family yaml-unsafe-strings, known findings yaml-block-scalar-leading-whitespace and yaml-merge-key-name)",
